@@ -8,6 +8,9 @@ mkdir -p .work evidence replays lean/GB/Generated
 ./.work/extract -repo "${VERIF_REPO:-/repo}" -out lean/GB/Generated/Facts.lean -json .work/facts.json
 (cd extract/lockset && go build -o ../../.work/lockset .)
 ./.work/lockset -repo "${VERIF_REPO:-/repo}" -out lean/GB/Generated/Lockset.lean -json .work/lockset.json
+(cd extract/trans && go build -o ../../.work/trans .)
+./.work/trans -repo "${VERIF_REPO:-/repo}" -out lean/GB/Generated/Trans.lean -json .work/trans.json \
+  || echo "setup: translator failed on this tree (./check of the properties with a TransTie module reports it)"
 (cd lean && lake build GB gbdriver)
 (cd harness && go build -tags verif -o ../.work/harness .)
 echo "setup ok"
